@@ -15,4 +15,11 @@ CONSTANTS
   Shapes = TRUE
   SwapMod = 1
   RestMod = 1
+  GModR2 = 8
+  GModR3 = 256
+  GModC2 = 64
+  KC3 = 150
+  GModC3 = 4
+  KR4 = 60
+  GModR4 = 16
 INVARIANTS TypeOK Contract Emit
